@@ -1,7 +1,7 @@
 (* C08 — memory references stay bound to the same memory across edits.  Statements only. *)
 From Coq Require Import List Arith NArith Bool.
 Import ListNotations.
-From Orca Require Import Util Reindex Reorg ReidxProofs CheckReidx SelfReidx.
+From Orca Require Import Util Reindex Reorg ReidxProofs CheckReidx SelfReidx GenRefers RefersThm.
 Local Open Scope N_scope.
 
 (* the index-space theorems are shared by the three re-indexed spaces (functions, globals, memories) *)
@@ -15,6 +15,19 @@ Theorem C08_mapping_position :
   forall l p it, NoDup (map it_id l) -> nth_error l p = Some it -> lookup (mapping l) (it_id it) = Some (N.of_nat p).
 Proof. exact mapping_pos. Qed.
 Print Assumptions C08_mapping_position.
+
+(* Over the tables regenerated from /repo/src/ir/wrappers.rs and the pinned wasmparser's operator list on every
+   check: every one of the 619 operators that carries a memory index (memarg / mem / src_mem / dst_mem) is both
+   classified by refers_to_memory and rewritten by update_memory_instr, and nothing else is.  (False before the
+   repair of D04: i64.atomic.load and the 49 atomic rmw / cmpxchg operators were missing.) *)
+Theorem C08_every_memory_operator_is_reindexed :
+  forall k, In k ops_with_memory_index -> RefersThm.mem k refers_to_memory_list = true /\ RefersThm.mem k update_memory_list = true.
+Proof. exact memory_operator_covered. Qed.
+Print Assumptions C08_every_memory_operator_is_reindexed.
+Theorem C08_memory_tables_exact :
+  missing ops_with_memory_index refers_to_memory_list = [] /\ missing refers_to_memory_list ops_with_memory_index = [].
+Proof. exact refers_to_memory_complete. Qed.
+Print Assumptions C08_memory_tables_exact.
 
 Example C08_nonvacuous :
   let c := self_r [(2, 1)] [99] [] [7] [AddImport SM 21; AddLocal SM 9]
